@@ -1,6 +1,9 @@
 import TantivyModel.Proofs.Tokenizer
 import TantivyModel.Proofs.Fragments
 import TantivyModel.Proofs.NgramSnippet
+import TantivyModel.Proofs.Html
+import TantivyModel.Proofs.Stateful
+import TantivyModel.Proofs.Instances
 /-!
 # C19 — Tokens and snippets always point inside the text, on character boundaries
 
@@ -142,6 +145,17 @@ theorem C19_ngram_enumeration (s : Text) (hv : ∀ c ∈ s, c.code < 0x110000) (
     stutterAll (frontiers s) minG maxG = ngramSpec (boundariesFrom 0 s) minG maxG := by
   rw [frontiers_eq_boundaries s hv]
   exact stutterAll_eq_spec (boundariesFrom 0 s) minG maxG hmin hle (by cases s <;> simp [boundariesFrom])
+
+/-- the guards of `NgramTokenizer::new` (read from the source) accept exactly the settings the
+n-gram theorems assume: every constructible n-gram tokenizer has `0 < min_gram ≤ max_gram` -/
+theorem C19_ngram_constructor_guards (minG maxG : Nat) :
+    ngramNewOk minG maxG = true ↔ (0 < minG ∧ minG ≤ maxG) := by
+  have h1 : Gen.NGRAM_NEW_REJECTS_ZERO_MIN = 1 := by decide
+  have h2 : Gen.NGRAM_NEW_REJECTS_MIN_GT_MAX = 1 := by decide
+  unfold ngramNewOk
+  rw [h1, h2]
+  simp
+  omega
 
 /-- NgramTokenizer (all n-grams and prefix-only): token contract, text = slice, position 0 -/
 theorem C19_ngram_offsets (s : Text) (hv : ∀ c ∈ s, c.code < 0x110000) (minG maxG : Nat)
@@ -339,6 +353,43 @@ theorem C19_fragment_length_partial (mode : Nat) (s : Text) (M : Nat) (ts : List
     have := length_le_byteLen (sliceFrom 0 s f.start f.stop)
     simp only; omega
 
+/-- the fragment-length clause, **full and unconditional** in the form that is true: for every
+contract-satisfying token stream the fragment is within `max_num_chars` bytes **or** it is spanned
+by one single token of the stream (`text[t.from..t.to]`, the token that opened the fragment) —
+exactly the shape of the recorded S7 finding, nothing else can exceed the limit -/
+theorem C19_fragment_within_limit_or_single_token (mode : Nat) (s : Text) (M : Nat)
+    (ts : List STok) (hc : SContract s ts) :
+    ∃ sn, snippet mode s M ts = some sn ∧
+      (byteLen sn.fragment ≤ M ∨
+        ∃ t ∈ ts, sn.fragment = sliceFrom 0 s t.from_ t.to ∧ byteLen sn.fragment = t.to - t.from_) := by
+  obtain ⟨frags, e, hf⟩ := search_P8 mode s M ts hc
+  simp only [snippet, e]
+  cases hb : selectBest frags with
+  | none => exact ⟨⟨[], []⟩, rfl, Or.inl (by simp [byteLen])⟩
+  | some f =>
+    obtain ⟨hfi, hl⟩ := hf f (selectBest_mem frags f hb)
+    simp only [mkSnippet_of_FI s f hfi]
+    obtain ⟨f1, _, f3, f4, _⟩ := hfi
+    have hlen := byteLen_slice (Nat.zero_le _) f3 f4 f1
+    refine ⟨_, rfl, ?_⟩
+    rcases hl with hl | ⟨t, ht, e1, e2⟩
+    · left; simp only; omega
+    · right
+      refine ⟨t, ht, ?_, ?_⟩
+      · simp only [e1, e2]
+      · simp only [hlen, e1, e2]
+
+/-- hence a bound that needs no hypothesis on the tokens: the fragment is never longer than the
+larger of `max_num_chars` and the longest token -/
+theorem C19_fragment_length_bound (mode : Nat) (s : Text) (M L : Nat) (ts : List STok)
+    (hc : SContract s ts) (hL : ∀ t ∈ ts, t.to - t.from_ ≤ L) :
+    ∃ sn, snippet mode s M ts = some sn ∧ byteLen sn.fragment ≤ max M L := by
+  obtain ⟨sn, h1, h2⟩ := C19_fragment_within_limit_or_single_token mode s M ts hc
+  refine ⟨sn, h1, ?_⟩
+  rcases h2 with h | ⟨t, ht, _, e⟩
+  · omega
+  · have := hL t ht; omega
+
 /-- DESIGN S7 (holds for the code in either mode): text `abcdefghij klm`, query `abcdefghij`,
 `max_num_chars = 3`: the first token of a fragment is added unconditionally, the fragment is 10
 bytes long -/
@@ -450,6 +501,27 @@ theorem C19_raw_highlights_disjoint_partial (mode : Nat) (s : Text) (M : Nat) (t
     have := (hfi.2.2.2.2 b hb).1
     omega
 
+/-- the unconditional part of "the highlighted ranges are sorted": for every contract-satisfying
+token stream (overlapping and duplicated tokens included) the raw highlights are ordered by their
+start offset -/
+theorem C19_raw_highlights_sorted_by_start (mode : Nat) (s : Text) (M : Nat) (ts : List STok)
+    (hc : SContract s ts) :
+    ∃ sn, snippet mode s M ts = some sn ∧ sn.hl.Pairwise (fun a b => a.1 ≤ b.1) := by
+  obtain ⟨frags, e, hf⟩ := search_P9 mode s M ts hc
+  simp only [snippet, e]
+  cases hb : selectBest frags with
+  | none => exact ⟨⟨[], []⟩, rfl, by simp⟩
+  | some f =>
+    obtain ⟨hfi, hp⟩ := hf f (selectBest_mem frags f hb)
+    simp only [mkSnippet_of_FI s f hfi]
+    refine ⟨_, rfl, ?_⟩
+    simp only [List.pairwise_map]
+    refine hp.imp_of_mem ?_
+    intro a b ha hb hab
+    have := (hfi.2.2.2.2 a ha).1
+    have := (hfi.2.2.2.2 b hb).1
+    omega
+
 /-- end to end for every analyzer = (a tokenizer whose tokens satisfy the contract with end offsets
 that never decrease) + any filter chain, any text, any query terms, any `max_num_chars`: `snippet`
 does not panic, every highlight lies inside the fragment on character boundaries of the fragment,
@@ -512,6 +584,373 @@ theorem C19_regex_analyzer_snippet_safe (mode : Nat) (fs : List Filter) (s : Tex
   have := (hc.inb b hb).1
   omega
 
+/-! ### the code as it is: hypotheses discharged from the extracted source shape -/
+
+/-- the extractor reads `self.stop_offset = self.stop_offset.max(token.offset_to)` in
+`try_add_token`: the model the driver runs keeps the running maximum. (A return to the plain
+assignment makes this — and everything below that uses it — fail to check.) -/
+theorem C19_stop_offset_is_running_max : stopMode ≠ 0 := by decide
+
+/-- **full** (no monotone-end hypothesis, no bound on token lengths): for the code as it is and
+every token stream satisfying the contract, `snippet` does not panic, every highlight lies inside
+the fragment on character boundaries of the fragment string, and `to_html` does not panic -/
+theorem C19_snippet_safe (s : Text) (M : Nat) (ts : List STok) (hc : SContract s ts) :
+    ∃ sn, snippet stopMode s M ts = some sn ∧
+      (∀ h ∈ sn.hl, h.1 ≤ h.2 ∧ h.2 ≤ byteLen sn.fragment ∧
+        IsBoundary sn.fragment h.1 ∧ IsBoundary sn.fragment h.2) ∧
+      ∃ out, toHtml sn = some out :=
+  C19_highlights_inside_code C19_stop_offset_is_running_max s M ts hc
+
+/-- … end to end for **every** analyzer = any tokenizer whose tokens satisfy the contract + any
+filter chain (token-dropping and token-duplicating filters included), any query terms, any
+`max_num_chars` -/
+theorem C19_every_analyzer_snippet_safe (s : Text) (ts0 : List Token) (hc : Contract s ts0)
+    (fs : List Filter) (M : Nat) (sc : Token → Option Nat) :
+    ∃ sn, snippet stopMode s M ((applyChain fs ts0).map (toSTok sc)) = some sn ∧
+      (∀ h ∈ sn.hl, h.1 ≤ h.2 ∧ h.2 ≤ byteLen sn.fragment ∧
+        IsBoundary sn.fragment h.1 ∧ IsBoundary sn.fragment h.2) ∧
+      ∃ out, toHtml sn = some out := by
+  obtain ⟨hcc, _⟩ := C19_chain_preserves_offsets fs s _ hc
+  apply C19_snippet_safe
+  refine ⟨?_, ?_⟩
+  · intro t ht
+    simp only [List.mem_map] at ht
+    obtain ⟨u, hu, rfl⟩ := ht
+    exact hcc.inb u hu
+  · simp only [List.pairwise_map, toSTok]
+    exact hcc.mono.imp (fun h => h.1)
+
+/-- … instantiated for the n-gram tokenizer (all n-grams or prefix only, any `min ≤ max`) behind
+any filter chain — the configuration in which `to_html` used to panic — with any `max_num_chars` -/
+theorem C19_ngram_any_chain_snippet_safe (s : Text) (hv : ∀ c ∈ s, c.code < 0x110000)
+    (minG maxG : Nat) (hmin : 0 < minG) (hle : minG ≤ maxG) (prefixOnly : Bool)
+    (fs : List Filter) (M : Nat) (sc : Token → Option Nat) :
+    ∃ sn, snippet stopMode s M
+        ((applyChain fs (ngramTokens s minG maxG prefixOnly)).map (toSTok sc)) = some sn ∧
+      (∀ h ∈ sn.hl, h.1 ≤ h.2 ∧ h.2 ≤ byteLen sn.fragment ∧
+        IsBoundary sn.fragment h.1 ∧ IsBoundary sn.fragment h.2) ∧
+      ∃ out, toHtml sn = some out :=
+  C19_every_analyzer_snippet_safe s _ (C19_ngram_offsets s hv minG maxG hmin hle prefixOnly).1 fs M sc
+
+/-- … and for the facet tokenizer under any filter chain (threaded text buffer) -/
+theorem C19_facet_any_chain_snippet_safe (sep : Nat) (fs : List Filter) (s : Text) (M : Nat)
+    (sc : Token → Option Nat) :
+    ∃ sn, snippet stopMode s M ((facetChain sep fs s).map (toSTok sc)) = some sn ∧
+      (∀ h ∈ sn.hl, h.1 ≤ h.2 ∧ h.2 ≤ byteLen sn.fragment ∧
+        IsBoundary sn.fragment h.1 ∧ IsBoundary sn.fragment h.2) ∧
+      ∃ out, toHtml sn = some out := by
+  have := C19_every_analyzer_snippet_safe s _ (C19_facet_chain_offsets sep fs s).1 [] M sc
+  simpa [applyChain] using this
+
+/-! ### `to_html` as characters -/
+
+/-- un-escaping the whole rendering (the five entities back to their characters) and removing the
+`<b>`/`</b>` tags gives exactly the fragment — over gaps **and** highlighted parts, for the string
+the driver compares byte for byte with `Snippet::to_html()` (`renderChars`) -/
+theorem C19_html_roundtrip (sn : Snippet) (out : List Html) (h : toHtml sn = some out) :
+    unescapeChars (renderChars out) = sn.fragment.map Cp.code := by
+  rw [unescape_render out (toHtmlAux_wf sn.fragment (collapse sn.hl) 0 out h)]
+  exact (C19_html_escape sn out h).1
+
+/-- every piece of the rendering is well formed: a character copied verbatim is none of
+`<>&"'`, an entity always stands for one of them (so every `<` of the string opens a tag and every
+`&` opens an entity) -/
+theorem C19_html_pieces_wellformed (sn : Snippet) (out : List Html) (h : toHtml sn = some out) :
+    ∀ e ∈ out, WfHtml e :=
+  toHtmlAux_wf sn.fragment (collapse sn.hl) 0 out h
+
+/-- the `<b>…</b>` pairs of the rendering enclose, in order, exactly the text of the collapsed
+highlight ranges of the fragment (nothing else is tagged, no range is skipped or shifted) -/
+theorem C19_html_tags_enclose_collapsed_highlights (sn : Snippet) (out : List Html)
+    (h : toHtml sn = some out) :
+    tagged out = (collapse sn.hl).map (fun r => (sliceFrom 0 sn.fragment r.1 r.2).map Cp.code) :=
+  toHtmlAux_tagged sn.fragment (collapse sn.hl) 0 out h
+
+/-- end to end for the code as it is: any contract-satisfying token stream renders, and the
+rendering reads back as the fragment, which is a slice of the text on character boundaries -/
+theorem C19_snippet_html_roundtrip (s : Text) (M : Nat) (ts : List STok) (hc : SContract s ts) :
+    ∃ sn out a b, snippet stopMode s M ts = some sn ∧ toHtml sn = some out ∧
+      IsBoundary s a ∧ IsBoundary s b ∧ a ≤ b ∧ sn.fragment = sliceFrom 0 s a b ∧
+      unescapeChars (renderChars out) = (sliceFrom 0 s a b).map Cp.code := by
+  obtain ⟨sn, h1, _, out, h3⟩ := C19_snippet_safe s M ts hc
+  obtain ⟨sn', a, b, e1, hab, _, ha, hb, hf, _⟩ := C19_fragment_bounds stopMode s M ts hc
+  rw [h1] at e1
+  cases e1
+  exact ⟨sn, out, a, b, h1, h3, ha, hb, hab, hf, by rw [← hf]; exact C19_html_roundtrip sn out h3⟩
+
+/-! ### hypotheses of the partial theorems, discharged for built-in analyzers -/
+
+/-- lower-caser, ASCII folding and stemmer (whatever their text functions are): the sequence of
+(offset_from, offset_to, position) is exactly the input's — nothing dropped, added or moved -/
+theorem C19_rewriting_filters_keep_token_sequence (f : Filter) (hf : f.Rewrites) (ts : List Token) :
+    (f.apply ts).map (fun t => (t.from_, t.to, t.pos)) = ts.map (fun t => (t.from_, t.to, t.pos)) :=
+  apply_rewrites_keys f hf ts
+
+/-- "a token that was not normalised equals the slice of text it points to", for filter chains:
+remove-long, alphanumeric-only and stop-word filters in any order only drop tokens — what comes out
+is a sub-sequence of the tokenizer's tokens, each still equal to its slice -/
+theorem C19_dropping_chain_keeps_text_is_slice (s : Text) (ts0 : List Token)
+    (hs : ∀ t ∈ ts0, TextIsSlice s t) (fs : List Filter) (hfs : ∀ f ∈ fs, f.Drops) :
+    (applyChain fs ts0).Sublist ts0 ∧ ∀ t ∈ applyChain fs ts0, TextIsSlice s t := by
+  have h := chain_drops_sublist fs hfs ts0
+  exact ⟨h, fun t ht => hs t (h.subset ht)⟩
+
+/-- … instantiated for the Simple / Whitespace tokenizers -/
+theorem C19_scan_dropping_chain_text_is_slice (p : Cp → Bool) (s : Text) (fs : List Filter)
+    (hfs : ∀ f ∈ fs, f.Drops) : ∀ t ∈ applyChain fs (scanTokens p s), TextIsSlice s t :=
+  (C19_dropping_chain_keeps_text_is_slice s _ (scanTokens_contract p s).2.1 fs hfs).2
+
+/-- `select_best_fragment_combination` (`max_by`): the fragment it picks is one of the candidates
+and no candidate has a higher score -/
+theorem C19_selected_fragment_has_max_score (frags : List Frag) (f : Frag)
+    (h : selectBest frags = some f) : f ∈ frags ∧ ∀ g ∈ frags, g.score ≤ f.score :=
+  ⟨selectBest_mem frags f h, selectBest_max frags f h⟩
+
+/-- `RemoveLongFilter::limit(L)` right behind a tokenizer (tokens still equal to their slice; the
+strict `<` of the predicate is read from the source), followed by any filters: every token is
+shorter than `L` bytes *in the text* -/
+theorem C19_remove_long_bounds_token_length (s : Text) (L : Nat) (fs : List Filter)
+    (ts : List Token) (hc : Contract s ts) (hs : ∀ t ∈ ts, TextIsSlice s t) :
+    ∀ t ∈ applyChain (Filter.removeLong L :: fs) ts, t.to - t.from_ < L :=
+  removeLong_chain_bounds s L fs ts hc hs
+
+/-- the fragment-length clause, **without** the "no token longer than the limit" hypothesis, for
+every analyzer of the shape of tantivy's `default` / `en_stem` analyzers — Simple (or Whitespace)
+tokenizer, `RemoveLongFilter::limit(L)`, then any filters — whenever `L ≤ max_num_chars + 1`: the
+fragment has at most `max_num_chars` bytes, hence characters -/
+theorem C19_remove_long_analyzer_fragment_length (p : Cp → Bool) (L : Nat) (fs : List Filter)
+    (s : Text) (M : Nat) (hM : L ≤ M + 1) (sc : Token → Option Nat) :
+    ∃ sn, snippet stopMode s M
+        ((applyChain (Filter.removeLong L :: fs) (scanTokens p s)).map (toSTok sc)) = some sn ∧
+      byteLen sn.fragment ≤ M ∧ sn.fragment.length ≤ M := by
+  obtain ⟨hc, hs, _⟩ := scanTokens_contract p s
+  obtain ⟨hcc, _⟩ := C19_chain_preserves_offsets (Filter.removeLong L :: fs) s _ hc
+  have hb := C19_remove_long_bounds_token_length s L fs _ hc hs
+  apply C19_fragment_length_partial
+  · refine ⟨?_, ?_⟩
+    · intro t ht
+      simp only [List.mem_map] at ht
+      obtain ⟨u, hu, rfl⟩ := ht
+      exact hcc.inb u hu
+    · simp only [List.pairwise_map, toSTok]
+      exact hcc.mono.imp (fun h => h.1)
+  · intro t ht
+    simp only [List.mem_map] at ht
+    obtain ⟨u, hu, rfl⟩ := ht
+    have := hb u hu
+    simp only [toSTok]; omega
+
+/-- … with the extracted constants: the `default` analyzer's limit (40) and the default
+`max_num_chars` (150) — a snippet of the default configuration never exceeds the limit -/
+theorem C19_default_analyzer_fragment_within_default_limit (fs : List Filter) (s : Text)
+    (sc : Token → Option Nat) :
+    ∃ sn, snippet stopMode s Gen.DEFAULT_MAX_NUM_CHARS
+        ((applyChain (Filter.removeLong Gen.DEFAULT_REMOVE_TOKEN_LENGTH :: fs)
+          (simpleTokens s)).map (toSTok sc)) = some sn ∧
+      byteLen sn.fragment ≤ Gen.DEFAULT_MAX_NUM_CHARS ∧
+      sn.fragment.length ≤ Gen.DEFAULT_MAX_NUM_CHARS :=
+  C19_remove_long_analyzer_fragment_length _ _ fs s _ (by decide) sc
+
+/-- the fragment-length clause for n-gram analyzers (any filter chain behind them) whenever
+`max_num_chars ≥ 4 · max_gram` -/
+theorem C19_ngram_analyzer_fragment_length (s : Text) (hv : ∀ c ∈ s, c.code < 0x110000)
+    (minG maxG : Nat) (hmin : 0 < minG) (hle : minG ≤ maxG) (prefixOnly : Bool)
+    (fs : List Filter) (M : Nat) (hM : 4 * maxG ≤ M) (sc : Token → Option Nat) :
+    ∃ sn, snippet stopMode s M
+        ((applyChain fs (ngramTokens s minG maxG prefixOnly)).map (toSTok sc)) = some sn ∧
+      byteLen sn.fragment ≤ M ∧ sn.fragment.length ≤ M := by
+  obtain ⟨hc, _⟩ := C19_ngram_offsets s hv minG maxG hmin hle prefixOnly
+  obtain ⟨hcc, hsame⟩ := C19_chain_preserves_offsets fs s _ hc
+  apply C19_fragment_length_partial
+  · refine ⟨?_, ?_⟩
+    · intro t ht
+      simp only [List.mem_map] at ht
+      obtain ⟨u, hu, rfl⟩ := ht
+      exact hcc.inb u hu
+    · simp only [List.pairwise_map, toSTok]
+      exact hcc.mono.imp (fun h => h.1)
+  · intro t ht
+    simp only [List.mem_map] at ht
+    obtain ⟨u, hu, rfl⟩ := ht
+    obtain ⟨v, hv', e1, e2, _⟩ := hsame u hu
+    have := ngram_token_len s hv minG maxG hmin hle prefixOnly v hv'
+    simp only [toSTok]; omega
+
+/-- the "raw highlights sorted and disjoint" clause for every analyzer = a tokenizer with
+non-overlapping tokens + filters that never duplicate a token (everything but the compound
+splitter) -/
+theorem C19_nonsplitting_analyzer_raw_highlights_disjoint (s : Text) (ts0 : List Token)
+    (hc : Contract s ts0) (hd : ts0.Pairwise (fun a b => a.to ≤ b.from_)) (fs : List Filter)
+    (hfs : ∀ f ∈ fs, f.NoSplit) (M : Nat) (sc : Token → Option Nat) :
+    ∃ sn, snippet stopMode s M ((applyChain fs ts0).map (toSTok sc)) = some sn ∧
+      sn.hl.Pairwise (fun a b => a.2 ≤ b.1) := by
+  obtain ⟨hcc, _⟩ := C19_chain_preserves_offsets fs s _ hc
+  have hd' := chain_pairwise_offsets fs hfs (fun a b => a.2 ≤ b.1) ts0 hd
+  apply C19_raw_highlights_disjoint_partial
+  · refine ⟨?_, ?_⟩
+    · intro t ht
+      simp only [List.mem_map] at ht
+      obtain ⟨u, hu, rfl⟩ := ht
+      exact hcc.inb u hu
+    · simp only [List.pairwise_map, toSTok]
+      exact hcc.mono.imp (fun h => h.1)
+  · simp only [List.pairwise_map, toSTok]
+    exact hd'
+
+/-- … instantiated: Simple / Whitespace tokenizer behind lower-caser, folding, remove-long,
+alphanumeric-only, stop words, stemmer in any order and number -/
+theorem C19_scan_analyzer_raw_highlights_disjoint (p : Cp → Bool) (fs : List Filter)
+    (hfs : ∀ f ∈ fs, f.NoSplit) (s : Text) (M : Nat) (sc : Token → Option Nat) :
+    ∃ sn, snippet stopMode s M ((applyChain fs (scanTokens p s)).map (toSTok sc)) = some sn ∧
+      sn.hl.Pairwise (fun a b => a.2 ≤ b.1) := by
+  obtain ⟨hc, _, hp⟩ := scanTokens_contract p s
+  exact C19_nonsplitting_analyzer_raw_highlights_disjoint s _ hc (hp.imp (fun h => h.1)) fs hfs M sc
+
+/-! ### state that survives a stream: history independence -/
+
+/-- the stateful `SplitCompoundWords` stream, started on **any** content of the reusable `parts`
+buffer and read for `k` tokens: the leftovers below the top of the buffer come first, then the
+stateless filter applied to the tokens of the tail stream -/
+theorem C19_split_stream_emits (g : List Nat → Option (List (List Nat))) (k : Nat) (P : PartsBuf)
+    (inner : List Token) :
+    (splitRun g k P inner).1 = (P.tail ++ (Filter.split g).apply inner).take k :=
+  splitRun_emits g k P inner
+
+/-- the extractor finds `self.parts.clear()` in `SplitCompoundWordsFilter::token_stream` -/
+theorem C19_split_parts_cleared : Gen.SPLIT_COMPOUND_CLEARS_PARTS ≠ 0 := by decide
+
+/-- history independence of `SplitCompoundWords` when `token_stream` clears the buffer: whatever
+streams the analyzer served before (any texts, each abandoned after any number of tokens, from any
+initial buffer), the first `k` tokens of a new stream are the first `k` tokens of the stateless
+filter on that stream's input -/
+theorem C19_split_history_independent (clears : Nat) (hc : clears ≠ 0)
+    (g : List Nat → Option (List (List Nat))) (P0 : PartsBuf) (hist : List (List Token × Nat))
+    (inner : List Token) (k : Nat) :
+    (splitRun g k (splitNewStream clears (splitHistory clears g P0 hist)) inner).1
+      = ((Filter.split g).apply inner).take k := by
+  rw [splitRun_emits]
+  simp [splitNewStream, hc]
+
+/-- … for the code as it is; a drained stream gives exactly the stateless filter's tokens -/
+theorem C19_split_history_independent_code (g : List Nat → Option (List (List Nat)))
+    (P0 : PartsBuf) (hist : List (List Token × Nat)) (inner : List Token) :
+    (∀ k, (splitRun g k (splitNewStream Gen.SPLIT_COMPOUND_CLEARS_PARTS
+        (splitHistory Gen.SPLIT_COMPOUND_CLEARS_PARTS g P0 hist)) inner).1
+      = ((Filter.split g).apply inner).take k) ∧
+    (splitRun g ((Filter.split g).apply inner).length (splitNewStream Gen.SPLIT_COMPOUND_CLEARS_PARTS
+        (splitHistory Gen.SPLIT_COMPOUND_CLEARS_PARTS g P0 hist)) inner).1
+      = (Filter.split g).apply inner := by
+  have h := C19_split_history_independent _ C19_split_parts_cleared g P0 hist inner
+  exact ⟨h, by rw [h]; exact List.take_of_length_le (Nat.le_refl _)⟩
+
+/-- without the clearing (the seeded change C19-C) the tokens do depend on the history: a
+compound `[1,2]` split into `[1]`,`[2]` at offsets 0..16, abandoned after its first part, makes the
+next stream start with the stale part `[2]` at 0..16 although its own text has one 5-byte token -/
+theorem C19_split_stale_parts_counterexample :
+    ∃ (g : List Nat → Option (List (List Nat))) (hist : List (List Token × Nat)) (inner : List Token),
+      (splitRun g 5 (splitNewStream 0 (splitHistory 0 g [] hist)) inner).1
+        = ⟨0, 16, 0, [2]⟩ :: (Filter.split g).apply inner ∧ inner = [⟨0, 5, 0, [7]⟩] := by
+  refine ⟨fun t => if t = [1, 2] then some [[1], [2]] else none,
+    [([⟨0, 16, 0, [1, 2]⟩], 1)], [⟨0, 5, 0, [7]⟩], by decide, rfl⟩
+
+/-- the extractor finds `output.clear()` at the start of `to_lowercase_unicode` and `to_ascii`,
+and `self.buffer.clear()` before the stemmer refills its buffer -/
+theorem C19_rewrite_buffers_cleared :
+    Gen.LOWERCASER_CLEARS_OUTPUT ≠ 0 ∧ Gen.ASCII_FOLDING_CLEARS_OUTPUT ≠ 0 ∧
+    Gen.STEMMER_CLEARS_BUFFER ≠ 0 := by decide
+
+/-- history independence of the lower-caser, the ASCII-folding filter and the stemmer, which build
+the new text in a reusable `String` that they swap with the token text: whatever the buffer holds
+when the stream starts (any earlier tokens, any earlier streams), the stateful stream over the
+tokens of its tail is the stateless filter -/
+theorem C19_rewrite_filters_history_independent (buf : List Nat) (ts : List Token)
+    (f : Nat → List Nat) (fo : Nat → Option (List Nat)) (g : List Nat → List Nat)
+    (owned : List Nat → Bool) :
+    (bufferedStream (lowerStep Gen.LOWERCASER_CLEARS_OUTPUT f) buf ts).1 = (Filter.lower f).apply ts ∧
+    (bufferedStream (foldStep Gen.ASCII_FOLDING_CLEARS_OUTPUT fo) buf ts).1 = (Filter.fold fo).apply ts ∧
+    (bufferedStream (stemStep Gen.STEMMER_CLEARS_BUFFER g owned) buf ts).1 = (Filter.stem g).apply ts := by
+  obtain ⟨h1, h2, h3⟩ := C19_rewrite_buffers_cleared
+  refine ⟨?_, ?_, ?_⟩
+  · rw [apply_lower_eq_map]
+    exact bufferedStream_of_step _ _ (lowerStep_text h1 f) ts buf
+  · rw [apply_fold_eq_map]
+    exact bufferedStream_of_step _ _ (foldStep_text h2 fo) ts buf
+  · rw [apply_stem_eq_map]
+    exact bufferedStream_of_step _ _ (stemStep_text h3 g owned) ts buf
+
+/-- without the `clear()` the texts accumulate: the second non-ASCII token comes out prefixed by
+the first one's original text -/
+theorem C19_rewrite_buffer_not_cleared_counterexample :
+    (bufferedStream (lowerStep 0 (fun c => [c])) [] [⟨0, 2, 0, [233]⟩, ⟨3, 5, 1, [252]⟩]).1
+      = [⟨0, 2, 0, [233]⟩, ⟨3, 5, 1, [233, 252]⟩] := by decide
+
+/-- the extractor finds `self.token.reset()` in `token_stream` of every built-in tokenizer, and
+`Token::reset` sets `position = usize::MAX` -/
+theorem C19_tokenizers_reset_token :
+    Gen.TOKENIZERS_RESET_TOKEN ≠ 0 ∧ Gen.TOKEN_RESET_POSITION_IS_MAX ≠ 0 := by decide
+
+/-- history independence of the position counter kept in the tokenizer's own `Token`: whatever
+position earlier streams left there, Simple/Whitespace tokenizers number the tokens of the next text
+from 0 — the stateful stream is the stateless `scanTokens` -/
+theorem C19_scan_history_independent (p : Cp → Bool) (left : Nat) (s : Text) :
+    scanStream Gen.TOKENIZERS_RESET_TOKEN Gen.TOKEN_RESET_POSITION_IS_MAX p left s
+      = scanTokens p s := by
+  have h : wrapAdd1 (streamStartPosition Gen.TOKENIZERS_RESET_TOKEN
+      Gen.TOKEN_RESET_POSITION_IS_MAX left) = 0 := by
+    have e : streamStartPosition Gen.TOKENIZERS_RESET_TOKEN Gen.TOKEN_RESET_POSITION_IS_MAX left
+        = usizeMax := by
+      unfold streamStartPosition
+      rw [if_neg C19_tokenizers_reset_token.1, if_neg C19_tokenizers_reset_token.2]
+    rw [e]; decide
+  unfold scanStream scanTokens
+  rw [h]
+
+/-- history independence of the facet tokenizer's accumulating text buffer: whatever text an
+earlier (abandoned) stream left in the tokenizer's token, the next stream starts from the empty
+text — the stateful stream is `facetChain` -/
+theorem C19_facet_history_independent (sep : Nat) (fs : List Filter) (left : List Nat) (s : Text) :
+    facetStream Gen.TOKENIZERS_RESET_TOKEN sep fs left s = facetChain sep fs s := by
+  unfold facetStream facetChain
+  rw [if_neg C19_tokenizers_reset_token.1]
+
+/-- the components composed: an analyzer `Simple|Whitespace → LowerCaser → SplitCompoundWords` (the
+shape of the analyzer in which the seeded change C19-C showed) in **any** state left by any
+history of texts and abandoned streams gives, for the next text and any number `k` of tokens read,
+the first `k` tokens of the stateless model — "the tokens of a text do not depend on what the
+analyzer processed before" -/
+theorem C19_analyzer_history_independent (p : Cp → Bool) (f : Nat → List Nat)
+    (g : List Nat → Option (List (List Nat))) (st : AnalyzerState) (s : Text) (k : Nat) :
+    analyzerRun p f g st s k
+      = (applyChain [Filter.lower f, Filter.split g] (scanTokens p s)).take k := by
+  simp only [analyzerRun]
+  rw [C19_scan_history_independent,
+    (C19_rewrite_filters_history_independent st.lowerBuf (scanTokens p s) f (fun _ => none) id
+      (fun _ => true)).1,
+    splitRun_emits]
+  simp [splitNewStream, C19_split_parts_cleared, applyChain]
+
+/-- for **every** filter chain behind a Simple / Whitespace tokenizer: whatever each filter's
+reusable buffers and the tokenizer's token hold when `token_stream` is called (any history of texts
+and abandoned streams), the stream's tokens — and so their first `k`, if it is abandoned in turn —
+are the stateless model's -/
+theorem C19_any_chain_history_independent (p : Cp → Bool) (owned : List Nat → Bool)
+    (fs : List Filter) (sts : List FilterState) (left : Nat) (s : Text) (k : Nat) :
+    (chainStream owned fs sts
+        (scanStream Gen.TOKENIZERS_RESET_TOKEN Gen.TOKEN_RESET_POSITION_IS_MAX p left s)).take k
+      = (applyChain fs (scanTokens p s)).take k := by
+  rw [C19_scan_history_independent, chainStream_eq_applyChain]
+
+/-- … and behind any tokenizer (its tokens given): the chain's streams do not depend on the state
+of the filters' buffers -/
+theorem C19_chain_streams_history_independent (owned : List Nat → Bool) (fs : List Filter)
+    (sts : List FilterState) (ts : List Token) :
+    chainStream owned fs sts ts = applyChain fs ts :=
+  chainStream_eq_applyChain owned fs sts ts
+
+/-- without the reset the positions of the next text continue where the last stream stopped -/
+theorem C19_scan_no_reset_counterexample :
+    scanStream 0 1 (fun c => c.alnum) 4 [⟨97, true⟩] = [⟨0, 1, 5, [97]⟩] := by decide
+
 /-! ### non-vacuity: the hypotheses are met by concrete non-trivial states -/
 
 -- "hé 😀a": a 2-byte and a 4-byte code point; tokens (0,3,0) and (8,9,1)
@@ -533,6 +972,25 @@ example : SContract [⟨97, true⟩, ⟨233, true⟩, ⟨32, false⟩, ⟨98, tr
     ∧ ∀ t ∈ [(⟨0, 3, some 4⟩ : STok), ⟨4, 5, none⟩], t.to - t.from_ ≤ 3 :=
   ⟨⟨by decide, by decide⟩, by decide, by decide⟩
 example : [(⟨0, 3, some 4⟩ : STok), ⟨4, 5, none⟩].Pairwise (fun a b => a.to ≤ b.from_) := by decide
+example : ∀ f ∈ [Filter.removeLong 40, Filter.alnumOnly, Filter.stop [[116, 104, 101]]], f.Drops := by
+  simp [Filter.Drops]
+example : selectBest [⟨1, 0, 3, []⟩, ⟨2, 4, 7, []⟩, ⟨2, 8, 9, []⟩] = some ⟨2, 4, 7, []⟩ := by decide
+example : ngramNewOk 2 3 = true ∧ ngramNewOk 0 3 = false ∧ ngramNewOk 4 3 = false := by decide
+-- the hypotheses of the instance theorems
+example : (Filter.lower (fun c => [c])).Rewrites ∧ (Filter.removeLong 40).NoSplit
+    ∧ ∀ f ∈ [Filter.removeLong 40, Filter.lower (fun c => [c]), Filter.alnumOnly], f.NoSplit := by
+  simp [Filter.Rewrites, Filter.NoSplit]
+example : Gen.DEFAULT_REMOVE_TOKEN_LENGTH ≤ Gen.DEFAULT_MAX_NUM_CHARS + 1 ∧ 4 * 3 ≤ 150 := by decide
+-- an analyzer state left by an abandoned compound: the next text is unaffected
+example : analyzerRun (fun c => c.alnum) (fun c => [c]) (fun t => if t = [97, 98] then some [[97], [98]] else none)
+    ⟨7, [1, 2, 3], [⟨0, 16, 0, [9]⟩, ⟨0, 16, 0, [8]⟩]⟩ [⟨65, true⟩, ⟨66, true⟩, ⟨32, false⟩, ⟨99, true⟩] 5
+    = [⟨0, 2, 0, [97]⟩, ⟨0, 2, 0, [98]⟩, ⟨3, 4, 1, [99]⟩] := by decide
+-- stale buffers in both filters of a chain: no effect
+example : chainStream (fun _ => false) [Filter.lower (fun c => [c]), Filter.split (fun _ => none)]
+    [⟨[1, 2], []⟩, ⟨[], [⟨0, 9, 0, [5]⟩, ⟨0, 9, 0, [6]⟩]⟩] [⟨0, 2, 0, [233]⟩] = [⟨0, 2, 0, [233]⟩] := by decide
+-- a history: a compound abandoned after its first part, then another text
+example : (1 : Nat) ≠ 0 ∧ splitHistory 1 (fun t => if t = [1, 2] then some [[1], [2]] else none) []
+    [([⟨0, 16, 0, [1, 2]⟩], 1)] = [⟨0, 16, 0, [1]⟩, ⟨0, 16, 0, [2]⟩] := by decide
 -- the two mode hypotheses: exactly one of them holds for the extracted value, both are possible values
 example : stopMode = 0 ∨ stopMode ≠ 0 := by decide
 example : (1 : Nat) ≠ 0 := by decide
@@ -542,6 +1000,12 @@ example : ∀ t ∈ ngramTokens [⟨97, true⟩, ⟨233, true⟩, ⟨98, true⟩
   decide
 example : ∀ r ∈ [((0 : Nat), (3 : Nat)), (2, 5), (5, 7)], r.1 ≤ r.2 := by decide
 example : collapse [(2, 5), (0, 3), (5, 7), (0, 3)] = [(0, 5), (5, 7)] := by decide
+-- the rendering of `<a> b` with `a` highlighted is the string `&lt;<b>a</b>&gt; b`, and reads back
+example : renderChars [.ent 60, .open_, .raw 97, .close, .ent 62, .raw 32, .raw 98]
+    = [38, 108, 116, 59, 60, 98, 62, 97, 60, 47, 98, 62, 38, 103, 116, 59, 32, 98] := by decide
+example : unescapeChars [38, 108, 116, 59, 60, 98, 62, 97, 60, 47, 98, 62, 38, 103, 116, 59, 32, 98]
+    = [60, 97, 62, 32, 98] := by decide
+example : tagged [.ent 60, .open_, .raw 97, .close, .ent 62, .raw 32, .raw 98] = [[97]] := by decide
 -- `<a> b` with `a` highlighted renders as `&lt;<b>a</b>&gt; b`
 example : toHtml ⟨[⟨60, false⟩, ⟨97, true⟩, ⟨62, false⟩, ⟨32, false⟩, ⟨98, true⟩], [(1, 2)]⟩
     = some [.ent 60, .open_, .raw 97, .close, .ent 62, .raw 32, .raw 98] := by decide
